@@ -119,6 +119,29 @@ class Config:
         v = tbl.cell(r, c).formatted_value
         return "" if v is None else str(v)
 
+    def edit_headers(self, rng, n_edits=3):
+        """write new labels into header cells of an already-read document (incl. labels that make a row and a
+        column of the same table share a name, or stop doing so) and refresh the plain description"""
+        for _ in range(n_edits):
+            _si, tbl, td = rng.choice(self.tables)
+            if not (td["hr"] or td["hc"]):
+                continue
+            labels = [x for x in td["rowlabels"] + td["collabels"] if x] or LABEL_POOL
+            new = rng.choice(labels + LABEL_POOL + ["fresh" + str(rng.randrange(100))])
+            if td["hr"] and (not td["hc"] or rng.random() < 0.5):
+                c = rng.randrange(td["hc"], td["nc"]) if td["nc"] > td["hc"] else None
+                if c is None:
+                    continue
+                tbl.write(td["hr"] - 1, c, new)
+            else:
+                r = rng.randrange(td["hr"], td["nr"]) if td["nr"] > td["hr"] else None
+                if r is None:
+                    continue
+                tbl.write(r, td["hc"] - 1, new)
+        for _si, tbl, td in self.tables:
+            td["rowlabels"] = [self._fv(tbl, r, td["hc"] - 1) if td["hc"] else "" for r in range(td["nr"])]
+            td["collabels"] = [self._fv(tbl, td["hr"] - 1, c) if td["hr"] else "" for c in range(td["nc"])]
+
     def words(self) -> str:
         w = [str(len(self.desc))]
         for sname, tds in self.desc:
@@ -427,7 +450,12 @@ def run(ctx: Ctx):
         cfg = Config(rng)
         dwords = cfg.words()
         desc = cfg.plain()
-        for _ in range(nrefs):
+        for k in range(nrefs):
+            if k and k % (nrefs // 3) == 0 and _ci % 2 == 0:
+                # header labels edited after references were already printed (name caches must follow)
+                cfg.edit_headers(rng)
+                dwords = cfg.words()
+                desc = cfg.plain()
             spec, exp = gen_ref(rng, cfg)
             req.append(f"refs str {dwords} {exp['host']} {exp['hrow']} {exp['hcol']} {node_words(spec)}")
             try:
